@@ -38,12 +38,13 @@ NextGrid == \/ Len(c) < 2 /\ \E t \in G2 : c' = Append(c, t)
             \/ Len(c) = 2 /\ c[1] \in G3 /\ c[2] \in G3 /\ \E t \in G3 : c' = Append(c, t)
 RECURSIVE SumHdrData(_)
 SumHdrData(l) == IF l = <<>> THEN 0 ELSE HdrLen(Head(l)) + Size(Head(l).data) + SumHdrData(Tail(l))
+\* RoundTrip, Canonical, HdrCanonical, EscapeMinimal and "every octet is accounted for", with the encoding computed once
 InvGrid ==
+    LET e == EncList(c) IN
     /\ WFList(c)
-    /\ RoundTrip(c)
-    /\ Canonical(EncList(c))
+    /\ DecList(e) = Valid(c)                                        \* RoundTrip(c); with WFList(c) this is Canonical(e)
     /\ \A i \in 1..Len(c) : HdrCanonical(c[i]) /\ EscapeMinimal(c[i].lvt)
-    /\ Size(EncList(c)) = SumHdrData(c)
+    /\ Size(e) = SumHdrData(c)
 \* expected octets for every list of 1..2 tags (spec -> code)
 WriteGrid ==
     LET L == SetToSeq(Strings(G2, 2)) IN
@@ -53,7 +54,19 @@ WriteGrid ==
 InitStr == c = <<>>
 NextStr == \/ Len(c) < MaxStr /\ \E b \in 0..255 : c' = Append(c, b)
            \/ Len(c) < MaxAlpha /\ (\A i \in 1..Len(c) : c[i] \in Alpha) /\ \E b \in Alpha : c' = Append(c, b)
-InvStr == NoOverRead(c) /\ StableOrInvalid(c) /\ DecodedWF(c)
+\* NoOverRead, StableOrInvalid and DecodedWF of Tags.tla with the decoding computed once.  (Every suffix of a case is
+\* itself a case, so not over-reading from position 1 of every string is not over-reading from any position.)
+InvStr ==
+    LET r == DecTag(c, 1)
+        d == DecList(c)
+    IN  /\ r.ok => (r.next > 1 /\ r.next <= Len(c) + 1)
+        /\ d.ok <=> (c = <<>> \/ (r.ok /\ DecList(SubSeq(c, r.next, Len(c))).ok))   \* self-delimiting: a list is empty, or a tag then a list
+        /\ d.ok => LET e == EncList(d.tags) IN
+                    /\ DecList(e) = d
+                    /\ Len(e) <= Len(c)
+                    /\ \A i \in 1..Len(d.tags) : WFTag(d.tags[i]) \/ d.tags[i].num = 255
+                    /\ (\A i \in 1..Len(d.tags) : WFTag(d.tags[i])) => ((e = c) <=> Canonical(c))
+        /\ (Len(c) <= 2 => (NoOverRead(c) /\ StableOrInvalid(c) /\ DecodedWF(c)))
 Expected(s) ==
     LET d == DecList(s)
         r == DecTag(s, 1)
